@@ -296,8 +296,51 @@ func mkVals(specs []valSpec) ([]goja.Value, error) {
 	return vals, nil
 }
 
+// firstTouch: the FIRST operation a goroutine performs on a shared string decides which access races with another
+// goroutine's scan (a reader that does not force the scan — JSON.stringify's utf16Reader, Reader, Concat, equality with
+// an ASCII string — against one that does).  Goroutine i starts with operation i mod 7; results are discarded.
+func firstTouch(vm *goja.Runtime, v goja.Value, i int) {
+	s, ok := v.(goja.String)
+	if !ok {
+		return
+	}
+	defer func() { _ = recover() }()
+	switch i % 7 {
+	case 0: // JSON.stringify(x): quote() walks x.utf16Reader() without forcing the scan
+		_ = vm.Set("__t", v)
+		_, _ = vm.RunString("JSON.stringify(__t); JSON.stringify({k:__t,[__t]:1})")
+	case 1:
+		_ = s.Length() // forces the scan
+	case 2:
+		rd := s.Reader()
+		for {
+			if _, _, err := rd.ReadRune(); err != nil {
+				break
+			}
+		}
+	case 3:
+		_ = s.Concat(s)
+	case 4:
+		_ = s.StrictEquals(vm.ToValue("plain ascii"))
+		_ = vm.ToValue("plain ascii").StrictEquals(s)
+	case 5:
+		_ = s.ToNumber() // forces the scan
+	case 6: // regexp / escape paths that read the Go string directly
+		_ = vm.Set("__t", v)
+		_, _ = vm.RunString("new RegExp(__t.replace(/[^a-z]/g,'')||'x'); __t.normalize(); encodeURI(__t.replace(/[\\ud800-\\udfff]/g,''))")
+	}
+}
+
 func runPrimOnce(prg *goja.Program, vals []goja.Value, rot int) string {
 	vm := goja.New()
+	if rot >= 0 {
+		for j := range vals {
+			firstTouch(vm, vals[(j+rot)%len(vals)], rot+j)
+		}
+	}
+	if rot < 0 {
+		rot = 0
+	}
 	for i, v := range vals {
 		if err := vm.Set(fmt.Sprintf("v%d", i), v); err != nil {
 			return "set-error:" + err.Error()
@@ -375,7 +418,7 @@ func runPrim(c *tcase) answer {
 	if err != nil {
 		return answer{OK: false, Info: "value-error:" + err.Error()}
 	}
-	base := runPrimOnce(prg, sep, 0)
+	base := runPrimOnce(prg, sep, -1)
 	a := answer{OK: true, Base: common.OneLine(base), Info: strings.Join(reprs, ",")}
 	if symChanged != "" {
 		a.OK = false
@@ -537,6 +580,68 @@ func runForeign(c *tcase) (a answer) {
 		_ = rb.Set("f", func() *goja.Object { return obj })
 		v, err := rb.RunString("f()")
 		res = fromErr(err, func() string { return classify(v) })
+	case "SliceOfObj":
+		_ = rb.Set("a", []*goja.Object{obj})
+		v, err := rb.RunString("a[0]")
+		res = fromErr(err, func() string { return classify(v) })
+	case "SliceOfValue":
+		_ = rb.Set("a", []goja.Value{obj})
+		v, err := rb.RunString("a[0]")
+		res = fromErr(err, func() string { return classify(v) })
+	case "ArrayElem":
+		_ = rb.Set("a", [1]interface{}{obj})
+		v, err := rb.RunString("a[0]")
+		res = fromErr(err, func() string { return classify(v) })
+	case "MapOfObj":
+		_ = rb.Set("m", map[string]*goja.Object{"k": obj})
+		v, err := rb.RunString("m.k")
+		res = fromErr(err, func() string { return classify(v) })
+	case "NestedSlice":
+		_ = rb.Set("a", []interface{}{[]interface{}{obj}})
+		v, err := rb.RunString("a[0][0]")
+		res = fromErr(err, func() string { return classify(v) })
+	case "SliceForOf":
+		_ = rb.Set("a", []interface{}{1, obj})
+		v, err := rb.RunString("var got; for (var x of a) got = x; got")
+		res = fromErr(err, func() string { return classify(v) })
+	case "SliceSpread":
+		_ = rb.Set("a", []interface{}{obj})
+		v, err := rb.RunString("[...a][0]")
+		res = fromErr(err, func() string { return classify(v) })
+	case "SliceMethod":
+		_ = rb.Set("a", []interface{}{obj})
+		v, err := rb.RunString("Array.prototype.map.call(a, function(x){ return x })[0]")
+		res = fromErr(err, func() string { return classify(v) })
+	case "SliceValues":
+		_ = rb.Set("a", []interface{}{obj})
+		v, err := rb.RunString("Object.values(a)[0]")
+		res = fromErr(err, func() string { return classify(v) })
+	case "MultiReturn":
+		_ = rb.Set("f", func() (interface{}, *goja.Object) { return 1, obj })
+		v, err := rb.RunString("f()[1]")
+		res = fromErr(err, func() string { return classify(v) })
+	case "MultiReturnIface":
+		_ = rb.Set("f", func() (interface{}, interface{}) { return obj, 2 })
+		v, err := rb.RunString("f()[0]")
+		res = fromErr(err, func() string { return classify(v) })
+	case "StructIfaceField":
+		type S struct{ F interface{} }
+		_ = rb.Set("s", S{F: obj})
+		v, err := rb.RunString("s.F")
+		res = fromErr(err, func() string { return classify(v) })
+	case "PtrToSlice":
+		sl := []interface{}{obj}
+		_ = rb.Set("a", &sl)
+		v, err := rb.RunString("a[0]")
+		res = fromErr(err, func() string { return classify(v) })
+	case "CallArg":
+		fn, err := rb.RunString("(function(x){ return x })")
+		if err != nil {
+			panic(err)
+		}
+		call, _ := goja.AssertFunction(fn)
+		v, err := call(goja.Undefined(), rb.ToValue(obj))
+		res = fromErr(err, func() string { return classify(v) })
 	case "FuncReturnIface":
 		_ = rb.Set("f", func() interface{} { return obj })
 		v, err := rb.RunString("f()")
@@ -556,6 +661,9 @@ func runScan(c *tcase) answer {
 	n := clamp(c.N, 2, 16)
 	lens := concurrently(n, func(i int) string {
 		s := v.(goja.String)
+		if i%2 == 1 { // odd goroutines start with a NON-forcing reader (JSON.stringify / Reader / Concat / ascii equality)
+			firstTouch(goja.New(), v, []int{0, 2, 3, 4, 6}[(i/2)%5])
+		}
 		switch i % 4 {
 		case 0:
 			return fmt.Sprint(s.Length())
